@@ -12,6 +12,10 @@ from pydantic import BaseModel
 
 from .plugins.manager import PluginManager
 
+# imports are sorted without looking for first party modules in working directory,
+# otherwise result depends on files which exist there at the moment of generation
+ISORT_CONFIG = isort.Config(src_paths=())
+
 PYDANTIC_RESERVED_FIELD_NAMES = [
     name for name in dir(BaseModel) if not name.startswith("_")
 ]
@@ -30,7 +34,7 @@ def ast_to_str(
         code = fix_code(code, remove_all_unused_imports=True)
     if multiline_strings:
         code = format_multiline_strings(code, offset=multiline_strings_offset)
-    return format_str(isort.code(code), mode=Mode())
+    return format_str(isort.code(code, config=ISORT_CONFIG), mode=Mode())
 
 
 def remove_blank_line_between_class_and_content(code: str) -> str:
